@@ -13,6 +13,9 @@
 (* attributes carried by the member objects themselves.  Operations are offered on members, on *)
 (* members again (re-add) and on foreign objects: remotes that are not in the stack but carry  *)
 (* keys that may equal a member's ("not identical") or nobody's ("does not exist").            *)
+(* Keys are abstract here: the model only uses equality of keys.  The harness concretises names  *)
+(* and addresses as path-like strings that contain one another and addresses also as (host,     *)
+(* port) duples, because that is where "equal" and "contained in" differ in the implementation.  *)
 (* Where the documentation is silent the model does not decide:                                *)
 (*   - moving / renaming / re-addressing to the key the remote already has is reported as      *)
 (*     "noop" whether the implementation accepts or rejects it; nothing may change.            *)
